@@ -29,7 +29,6 @@ def install(w):
 
     # ---- validation side: ghost counter 'errs' of on_error calls -----------------------------------
     w.alias("Path", "graphql.pyutils.path.Path")
-    w.shape("Path", prev="opaque", key="opaque", typename="opaque")
     w.contract("graphql.pyutils.path.Path.as_list", returns=("list", "dyn"), ensures=[],
                assumed=True)
     CB = ("callback", "errs")
